@@ -191,6 +191,14 @@ let put_hstate s =
   L [put_list (fun e -> L [put_ident e.e_id; put_opt put_ident e.e_revert_of]) s.h_hist;
      put_list put_params s.h_tree; put_list put_params (implied_tree s.h_hist)]
 
+(* ---- matcher / hunks (C03, C15) ---- *)
+let get_fhunk = function
+  | L [line; col; ch; st; en; content; repl; before; after] ->
+    { fh_line = get_nat line; fh_col = get_nat col; fh_char = get_nat ch; fh_start = get_nat st; fh_end = get_nat en;
+      fh_content = get_bytes content; fh_replace = get_bytes repl; fh_before = get_opt get_bytes before;
+      fh_after = get_opt get_bytes after }
+  | _ -> failwith "fhunk"
+
 let dispatch (req : Sexp.t) : Sexp.t =
   match req with
   | L (A op :: args) -> begin
@@ -244,6 +252,15 @@ let dispatch (req : Sexp.t) : Sexp.t =
           | _ -> failwith "cmd list" in
         L (go h_init (match cs with L l -> l | _ -> failwith "list") [])
       | "crash_prefix", [p; t; k] -> put_fs (crash_prefix (get_aplan p) (get_fs t) (get_nat k))
+      | "find_matches", [vs; c] ->
+        put_list (fun m -> L [put_nat m.m_line; put_nat m.m_col; put_nat m.m_start; put_nat m.m_end; put_bytes m.m_text])
+          (find_matches (get_list get_bytes vs) (get_bytes c))
+      | "is_boundary", [c; a; b] -> put_bool (is_boundary (get_bytes c) (get_nat a) (get_nat b))
+      | "file_consistent", [wt; c; hs] ->
+        let c = get_bytes c and hs = get_list get_fhunk hs and wt = get_bool wt in
+        L [put_bool (file_consistent wt c hs); put_list (fun h -> put_bool (hunk_ok wt c h)) hs]
+      | "diff_after", [hs] -> put_bytes (diff_after (get_list get_fhunk hs))
+      | "line_after_plan", [l; hs] -> put_bytes (line_after_plan (get_bytes l) (get_list get_fhunk hs))
       | "spec_apply", [p; t] -> put_fs (spec_apply (get_aplan p) (get_fs t))
       | "serde_plan", [p] ->
         let p = get_plan p in
